@@ -76,9 +76,10 @@ int __wrap_accept(int fd, struct sockaddr *a, socklen_t *n){ if (k_acc == 2) { p
     int nfd = VFD0 + nacc++; memset(KK(nfd), 0, sizeof K[0]); printf("Y accept %d\n", nfd); memset(a, 0, sizeof(struct sockaddr_in)); a->sa_family = AF_INET; *n = sizeof(struct sockaddr_in); return nfd; }
 int __wrap_getnameinfo(const struct sockaddr *sa, socklen_t salen, char *host, socklen_t hostlen, char *serv, socklen_t servlen, int flags){
     if (flags & NI_NAMEREQD) return EAI_NONAME; strcpy(host, "127.0.0.1"); if (serv) strcpy(serv, "5000"); return 0; }
-int __wrap_socket(int d, int t, int p){ int fd = DFD0 + nsock++; memset(KK(fd), 0, sizeof K[0]); printf("Y socket %d\n", fd); return fd; }
+static void k_full(const char *what){ fflush(stdout); fprintf(stderr, "HARNESS: the simulated kernel's descriptor table is exhausted (%s)\n", what); _exit(97); }
+int __wrap_socket(int d, int t, int p){ if (nsock >= 1000) k_full("sockets"); int fd = DFD0 + nsock++; memset(KK(fd), 0, sizeof K[0]); printf("Y socket %d\n", fd); return fd; }
 static int npair = 0, nfork = 0;
-int __wrap_socketpair(int d, int t, int p, int sv[2]){ sv[0] = DFD0 + 1000 + 2*npair; sv[1] = sv[0] + 1; npair++; memset(KK(sv[0]), 0, sizeof K[0]); printf("Y socketpair %d %d\n", sv[0], sv[1]); return 0; }
+int __wrap_socketpair(int d, int t, int p, int sv[2]){ if (DFD0 + 1000 + 2*npair + 1 - VFD0 >= MAXFD) k_full("socket pairs"); sv[0] = DFD0 + 1000 + 2*npair; sv[1] = sv[0] + 1; npair++; memset(KK(sv[0]), 0, sizeof K[0]); printf("Y socketpair %d %d\n", sv[0], sv[1]); return 0; }
 pid_t __wrap_fork(void){ int pid = 5000 + nfork++; printf("Y fork %d\n", pid); return pid; }
 int __wrap_kill(pid_t pid, int sig){ printf("Y kill %d %d\n", (int)pid, sig); return 0; }
 /* a child that was sent SIGTERM a moment ago has not exited yet: only a waitpid() that really waits reaps it; with WNOHANG the call
